@@ -2,7 +2,7 @@
    - the trie is a map (get/set laws), tcells lists its cells;
    - bloom_no_false_negative: for ANY hash function, a key that was added is matched;
    - bloom_match never returns OOB (memory safety of bloom_match on arbitrary bytes). *)
-From LCDB Require Import Base Varint Block Trie Filter BaseProofs VarintProofs.
+From LCDB Require Import Base Varint Block Trie Filter BaseProofs VarintProofs BlockProofs.
 Require Import Lia ZifyBool ZifyNat ZifyN.
 Ltac Zify.zify_post_hook ::= Z.div_mod_to_equations.
 Local Open Scope N_scope.
@@ -232,3 +232,70 @@ Proof.
   intros. unfold internal_fmatch, internal_fbuild. apply bloom_build_match.
   apply in_map. exact H.
 Qed.
+
+(* ------------------------------------------------------------------ *)
+(* Filter block reader: memory safety on arbitrary bytes               *)
+(* ------------------------------------------------------------------ *)
+Lemma slice_ok : forall data size off len,
+  size = nlen data -> off + len <= size ->
+  slice data size off len = Ok (take_n len (drop_n off data)).
+Proof.
+  intros data size off len Hs Hle. unfold slice.
+  replace (size <? off + len) with false by lia.
+  rewrite nlen_take_n_le by (rewrite nlen_drop_n; lia). rewrite N.eqb_refl. reflexivity.
+Qed.
+
+Definition fr_ok (fr : freader) : Prop :=
+  fr_size fr = nlen (fr_data fr) /\
+  (fr_num fr = 0 \/ fr_offset fr + 4 * fr_num fr + 5 <= fr_size fr).
+
+Lemma filter_init_ok : forall contents, exists fr, filter_init contents = Ok fr /\ fr_ok fr.
+Proof.
+  intros contents. unfold filter_init.
+  destruct (nlen contents <? 5) eqn:E.
+  - eexists. split; [reflexivity|]. split; [reflexivity|left; reflexivity].
+  - destruct (nth_error contents (N.to_nat (nlen contents - 1))) eqn:E1.
+    2:{ apply nth_error_None in E1. unfold nlen in *. lia. }
+    destruct (read32_ok contents (nlen contents) (nlen contents - 5) eq_refl ltac:(lia)) as [lw ->].
+    cbn [rbind].
+    destruct (nlen contents - 5 <? lw) eqn:E2.
+    + eexists. split; [reflexivity|]. split; [reflexivity|left; reflexivity].
+    + eexists. split; [reflexivity|]. split; [reflexivity|right].
+      cbn [fr_offset fr_num fr_size]. lia.
+Qed.
+
+Section FilterSafety.
+Variable fmatch : bytes -> bytes -> res bool.
+Hypothesis fmatch_safe : forall f k, fmatch f k <> OOB.
+
+Lemma filter_matches_safe : forall fr off key,
+  fr_ok fr -> filter_matches fmatch fr off key <> OOB.
+Proof.
+  intros fr off key [Hs Hn]. unfold filter_matches.
+  generalize (off / 2 ^ fr_base_lg fr). intros index.
+  destruct (index <? fr_num fr) eqn:E; [|discriminate].
+  destruct Hn as [Hz|Hn]; [lia|].
+  destruct (read32_ok (fr_data fr) (fr_size fr) (fr_offset fr + index * 4) Hs ltac:(lia)) as [st ->].
+  cbn [rbind].
+  destruct (read32_ok (fr_data fr) (fr_size fr) (fr_offset fr + index * 4 + 4) Hs ltac:(lia)) as [lim ->].
+  cbn [rbind].
+  destruct ((st <=? lim) && (lim <=? fr_offset fr)) eqn:E2.
+  - rewrite slice_ok by (auto; lia). cbn [rbind]. apply fmatch_safe.
+  - destruct (st =? lim); discriminate.
+Qed.
+
+(* (d) filter_matches on arbitrary filter-block bytes never returns OOB *)
+Theorem filter_block_matches_safe : forall blockbytes off key,
+  filter_block_matches fmatch blockbytes off key <> OOB.
+Proof.
+  intros. unfold filter_block_matches.
+  destruct (filter_init_ok blockbytes) as [fr [-> Hok]]. cbn [rbind].
+  apply filter_matches_safe. exact Hok.
+Qed.
+
+End FilterSafety.
+
+Lemma user_fmatch_safe : forall f k, user_fmatch f k <> OOB.
+Proof. intros. apply bloom_match_safe. Qed.
+Lemma internal_fmatch_safe : forall f k, internal_fmatch f k <> OOB.
+Proof. intros. apply bloom_match_safe. Qed.
